@@ -141,6 +141,12 @@ func checkC09(c *Ctx, r *Report) {
 		r.add("C09.d", "tpl-types", en+":package+auth-import", en+": package clause and RequestAuth import come from the configuration", []string{eng.Routes.File}, []string{eng.Routes.File + ":1"}, viol)
 	}
 	checkPackageNameVerbatim(c, r, "C09.d")
+	// which result types are accepted as the operation's error: the templates assign the value to an
+	// `error` variable and compare it with nil, which compiles for `error` itself and for structs
+	// that EMBED error (value and pointer alike) - not for a type that merely has an Error() method
+	// on a pointer receiver. The predicate is exactly "is error, or embeds error".
+	ruleHelperShape(c, r, "C09.b", helperShape{Fn: "core/metadata.isErrorEmbedding", AllowedCalls: []string{"gast.DoesStructEmbedType"}, MustConsts: []string{"error"},
+		Why: "an accepted error return type is `error` or a struct embedding it; anything looser makes the generated `var opError error = …` fail to compile for some accepted project"})
 
 	// ---- C09.e generated identifiers: every use has a declaration with the same spelling
 	checkGeneratedIdentifiers(c, r)
